@@ -92,6 +92,11 @@ def run_trace(ctx, n, comp, gap, budget, init_ids, hidden_games, trace, exact, k
     return envlib.env_line(n, comp, gap, budget, init_ids, model_ops), impl_obs
 
 
+def regen(ctx):
+    import registry_dump
+    registry_dump.regen_registry()
+
+
 def run(ctx, proof):
     rng = ctx.rng
     gaps = list(GAP_FUNCTIONS.keys())
